@@ -22,6 +22,15 @@ pub fn check_frame(shape: &Shape, value: &Value, l: &mut Local) -> CaseResult {
     let plain = &e.bytes;
     let want = refcobs::frame(plain);
     let t = Typed(shape, value);
+    {
+        // the encoders are stateless: a call that was refused after it had produced some bytes leaves nothing behind
+        let bad_shape = Shape::Tuple(vec![Shape::U8, Shape::Str, Shape::UnsizedSeq(Box::new(Shape::U8))]);
+        let bad_value = Value::List(vec![Value::U(0xAA), Value::Str("left".into()), Value::List(vec![Value::U(1)])]);
+        let bad = Typed(&bad_shape, &bad_value);
+        let _ = no_panic(|| postcard::to_stdvec_cobs(&bad));
+        let _ = no_panic(|| postcard::to_allocvec_cobs(&bad));
+        let _ = no_panic(|| postcard::to_vec_cobs::<_, 64>(&bad).map(|v| v.len()));
+    }
     l.eval();
     let a = no_panic(|| postcard::to_allocvec_cobs(&t)).map_err(|p| fail("frame", format!("to_allocvec_cobs panicked: {}", p), cj()))?;
     let a = a.map_err(|e| fail("frame", format!("to_allocvec_cobs failed: {:?}", e), cj()))?;
